@@ -266,7 +266,7 @@ func checkConnectives(r *Run, prog *Program, a *Anchors, pfx string) {
 				var order []string
 				var argProblems []string
 				for _, ev := range sm.Events() {
-					if ev.Instr == nil || ev.Callee == nil || len(ev.Args) == 0 {
+					if ev.Instr == nil || ev.Callee == nil || len(ev.Args) == 0 || ev.Inlined {
 						continue
 					}
 					f, ok := childField(ev.Args[0], pNode, ptrT)
